@@ -175,3 +175,51 @@ func VerifC18_variadic() {
 	}
 	c18Result(info.variadicFunc(args), info.name)
 }
+
+// percentile / percentiles / median with an options map: every option key x every value kind
+//verif:opts maxpaths=100000 unwind=40 cap=3000 samples=2
+func VerifC18_percentile_options() {
+	keys := []string{"oa", "output_array_not_map", "il", "interpolate_linearly", "ais", "array_is_sorted", "bogus"}
+	vals := []*mlrval.Mlrval{mlrval.TRUE, mlrval.FALSE, mlrval.FromInt(1), mlrval.FromString("x"), mlrval.VOID}
+	opts := mlrval.NewMlrmap()
+	opts.PutReference(keys[verifChoice("key", len(keys))], vals[verifChoice("val", len(vals))])
+	if verifChoice("two", 2) == 1 {
+		opts.PutReference(keys[verifChoice("key2", len(keys))], vals[verifChoice("val2", len(vals))])
+	}
+	var coll *mlrval.Mlrval
+	switch verifChoice("coll", 3) {
+	case 0:
+		coll = mlrval.FromArray([]*mlrval.Mlrval{mlrval.FromInt(3), mlrval.FromInt(1), mlrval.FromInt(2)})
+	case 1:
+		coll = mlrval.FromEmptyArray()
+	case 2:
+		m := mlrval.NewMlrmap()
+		m.PutReference("k", mlrval.FromInt(5))
+		coll = mlrval.FromMap(m)
+	}
+	p := mlrval.FromInt([]int64{50, 250, -1}[verifChoice("p", 3)]) // the index arithmetic for symbolic p is C10's
+	tbl := c18Table()
+	names := []string{"percentile", "percentiles", "median"}
+	name := names[verifChoice("fn", 3)]
+	verifAllowOpaqueCut()
+	for i := range tbl {
+		if tbl[i].name != name {
+			continue
+		}
+		switch name {
+		case "percentile":
+			if tbl[i].ternaryFunc != nil {
+				c18Result(tbl[i].ternaryFunc(coll, p, mlrval.FromMap(opts)), name)
+			}
+		case "percentiles":
+			if tbl[i].ternaryFunc != nil {
+				c18Result(tbl[i].ternaryFunc(coll, mlrval.FromArray([]*mlrval.Mlrval{p, mlrval.FromInt(50)}), mlrval.FromMap(opts)), name)
+			}
+		case "median":
+			if tbl[i].binaryFunc != nil {
+				c18Result(tbl[i].binaryFunc(coll, mlrval.FromMap(opts)), name)
+			}
+		}
+	}
+	verifReach("C18/bifs/end")
+}
